@@ -105,6 +105,18 @@ func openBackend(dir, name string) (*backend, error) {
 	return b, nil
 }
 
+// reopen: the worker process died (a command made the store panic): every connection is gone, a new
+// process opens the same file.
+func (b *backend) reopen(dir string) error {
+	b.close()
+	nb, err := openBackend(dir, b.name)
+	if err != nil {
+		return err
+	}
+	*b = *nb
+	return nil
+}
+
 func (b *backend) close() {
 	if b.db != nil {
 		_ = b.db.Close()
@@ -117,6 +129,7 @@ func (b *backend) close() {
 // run is one engine-S run.
 type run struct {
 	prop     string
+	dir      string
 	backends []*backend
 	model    *tables.Tables
 	viol     []*k.Violation
@@ -170,6 +183,13 @@ func (r *run) execBatch(st *k.Step) {
 	}
 	outs := make([]*outcome, len(r.backends))
 	injected := false
+	preLast := make([]*tables.Tables, len(r.backends))
+	for bi, b := range r.backends {
+		preLast[bi] = b.last
+	}
+	if st.K == 9 {
+		injected = true // the batch as a whole must fail: the model goes back
+	}
 	for bi, b := range r.backends {
 		sqes := make([]*aioSQE, len(txs))
 		for i, tx := range txs {
@@ -179,6 +199,10 @@ func (r *run) execBatch(st *k.Step) {
 			_ = json.Unmarshal(raw, &cp)
 			fixNil(cp)
 			sqes[i] = &aioSQE{Id: fmt.Sprintf("b%d.%d", r.stepNo, i), Submission: &t_aio.Submission{Kind: t_aio.Store, Tags: map[string]string{"id": fmt.Sprintf("b%d.%d", r.stepNo, i)}, Store: &t_aio.StoreSubmission{Transaction: cp}}, Callback: func(*t_aio.Completion, error) {}}
+		}
+		if st.K == 9 {
+			// a last submission the store cannot execute at all (unknown command kind): the worker dies on it
+			sqes = append(sqes, &aioSQE{Id: fmt.Sprintf("b%d.poison", r.stepNo), Submission: &t_aio.Submission{Kind: t_aio.Store, Tags: map[string]string{"id": "poison"}, Store: &t_aio.StoreSubmission{Transaction: &t_aio.Transaction{Commands: []*t_aio.Command{{Kind: t_aio.StoreKind(99)}}}}}, Callback: func(*t_aio.Completion, error) {}})
 		}
 		o := &outcome{}
 		outs[bi] = o
@@ -202,14 +226,41 @@ func (r *run) execBatch(st *k.Step) {
 				}
 			}
 		}
+		died := false
 		func() {
 			defer func() {
 				if p := recover(); p != nil {
-					r.violate("S.panic", append(propsFor(r.prop, b), "C13"), "batch", fmt.Sprint(p), fmt.Sprintf("%s backend panicked: %v", b.name, p))
+					died = true
+					if st.K != 9 {
+						r.violate("S.panic", append(propsFor(r.prop, b), "C13"), "batch", fmt.Sprint(p), fmt.Sprintf("%s backend panicked: %v", b.name, p))
+					}
 				}
 			}()
 			o.cqes = b.proc.Process(sqes)
 		}()
+		if st.K == 9 {
+			// whatever happened, the batch must not have become durable: no submission was answered.
+			// A worker that died is replaced by a new process on the same file.
+			r.probes["poison_batch"]++
+			if died {
+				r.probes["poison_killed_worker"]++
+				if err := b.reopen(r.dir); err != nil {
+					panic(fmt.Sprintf("harness: reopen of %s failed: %v", b.name, err))
+				}
+				b.ctl.OnStmt, b.ctl.OnCommit, b.ctl.Next = nil, nil, nil
+				snap, err := tables.Load(b.obs)
+				if err != nil {
+					panic(fmt.Sprintf("harness: snapshot of %s failed: %v", b.name, err))
+				}
+				if d := tables.Diff(preLast[bi], snap, false); len(d) > 0 {
+					r.violate("S.poison_effects", propsFor(r.prop, b), "batch", "a batch that killed the store worker left effects", b.name+": "+strings.Join(d, "\n"))
+				}
+				b.last = snap
+				o.post = snap
+				o.cqes = nil
+				continue
+			}
+		}
 		b.ctl.OnStmt, b.ctl.OnCommit, b.ctl.Next = nil, nil, nil
 		if b.ctl.Fired["sql.stmt_error"]+b.ctl.Fired["sql.commit_error"]+b.ctl.Fired["sql.begin_error"] > fired0 {
 			injected = true
@@ -232,9 +283,13 @@ func (r *run) execBatch(st *k.Step) {
 		o := outs[bi]
 		props := propsFor(r.prop, b)
 		mustFail := injected || merr != nil
-		if o.cqes == nil || len(o.cqes) != len(txs) {
+		wantCqes := len(txs)
+		if st.K == 9 {
+			wantCqes++
+		}
+		if o.cqes == nil || len(o.cqes) != wantCqes {
 			if o.cqes != nil {
-				r.violate("S.cqe_count", props, "batch", "completion count", fmt.Sprintf("%s: %d completions for %d submissions", b.name, len(o.cqes), len(txs)))
+				r.violate("S.cqe_count", props, "batch", "completion count", fmt.Sprintf("%s: %d completions for %d submissions", b.name, len(o.cqes), wantCqes))
 			}
 			b.last = o.post
 			continue
@@ -638,7 +693,7 @@ func newRun(prop string) (*run, string, error) {
 	if err != nil {
 		return nil, "", err
 	}
-	r := &run{prop: prop, stats: map[string]int{}, probes: map[string]int{}}
+	r := &run{prop: prop, dir: dir, stats: map[string]int{}, probes: map[string]int{}}
 	names := []string{"sqlite"}
 	if prop == "C17" {
 		names = []string{"sqlite", "postgres"}
@@ -716,6 +771,9 @@ func (engineS) Generate(prop string, seed int64, runNo int) (*k.RunResult, error
 		if rng.Intn(3) == 0 {
 			at := 1 + rng.Intn(8)
 			st.ObserveAt = &at
+		}
+		if st.Sql == nil && rng.Intn(25) == 0 {
+			st.K = 9 // the batch ends with a submission that kills the store worker
 		}
 		r.stepNo = i
 		r.execBatch(&st)
